@@ -180,7 +180,9 @@ func (s *Sink) LaneViolation(plan *Plan, sig, detail string) {
 	if p.Meta == nil {
 		p.Meta = map[string]string{}
 	}
-	p.Meta["lane"] = "P"
+	if p.Meta["lane"] == "" {
+		p.Meta["lane"] = "P"
+	}
 	if len(s.res.Violations) < 12 {
 		s.res.Violations = append(s.res.Violations, FoundViolation{Sig: sig, Detail: detail, Plan: p})
 	}
@@ -317,9 +319,13 @@ func execPlan(t *testing.T, plan *Plan, known []string) *World {
 	default:
 		w = Exec(t, plan, p.Oracle())
 	}
-	if plan.Meta["lane"] == "P" && p.LaneP != nil && len(w.Viol) == 0 && w.Harness == "" {
+	if (plan.Meta["lane"] == "P" && p.LaneP != nil || plan.Meta["lane"] == "K") && len(w.Viol) == 0 && w.Harness == "" {
 		sink := newSink(plan.Prop, nil)
-		p.LaneP(t, plan, w, sink)
+		if plan.Meta["lane"] == "K" {
+			laneK_replay(plan, w, sink)
+		} else {
+			p.LaneP(t, plan, w, sink)
+		}
 		for _, v := range sink.res.Violations {
 			w.Viol = append(w.Viol, Violation{Sig: v.Sig, Detail: v.Detail})
 		}
